@@ -250,6 +250,7 @@ func runC11(c *Ctx) {
 	c.Rule("A2a-benign: reads of a kept slice header used only for cap()/nil tests and reslice-store-back (the capacity-reuse idiom) are not exposed reads")
 	c.Rule("A2b-reuse: for every cap()-guarded buffer reuse X[:n] vs make(n): on the reuse path no element is read before the buffer is cleared or fully overwritten (clear, full-range store loop), within the function and the callees it is passed to; buffers that leave the function unwritten must be fields of a pooled type tracked by A2a or reviewed")
 	c.Rule("A2b-extend: no reslice provably extends a slice beyond its length (x[:len(x)+k], x[:cap(x)]) unless its backing array was allocated in the same function or the site is reviewed")
+	c.Rule("A2d raster fill: a two-dimensional fill loop (index y*W+x) of a pooled buffer stores the element on every path of its inner body")
 	c.Rule("A2c-put: after Put(x) (including deferred Put, which runs after results are evaluated) no value derived from x is used, stored or returned")
 	c.NotCovered("locations with a reviewed table line (scratch written before read by construction, invariants implied by the reuse test) are reviewed by hand, not proven")
 	c.NotCovered("that equal internal state implies equal output bytes (determinism of the kernels themselves)")
@@ -382,6 +383,16 @@ func a2Pools(c *Ctx, p *Program, rows []*reviewRow) map[string]bool {
 				}
 			}
 		}
+	}
+	// raster fills of pooled buffers that skip elements
+	seenPF := map[string]bool{}
+	for _, pf := range s.Partial() {
+		key := pf.fn + ":" + pf.loc
+		if seenPF[key] {
+			continue
+		}
+		seenPF[key] = true
+		c.Fail("A2d-raster-skip", key, p.Pos(pf.pos), "the two-dimensional fill of pooled buffer "+pf.loc+" in "+pf.fn+" does not store every element (a path through the inner loop body skips the store): the skipped elements keep the previous call's contents")
 	}
 	c.Floor("A2-pools", npools, 8)
 	for k := range s.sums {
